@@ -169,6 +169,22 @@ fn go_literal_from_primitive(value: &Prim, ty: &tast::Ty) -> goast::Expr {
     );
 }
 
+fn is_numeric_literal_ty(ty: &tast::Ty) -> bool {
+    matches!(
+        ty,
+        tast::Ty::TInt8
+            | tast::Ty::TInt16
+            | tast::Ty::TInt32
+            | tast::Ty::TInt64
+            | tast::Ty::TUint8
+            | tast::Ty::TUint16
+            | tast::Ty::TUint32
+            | tast::Ty::TUint64
+            | tast::Ty::TFloat32
+            | tast::Ty::TFloat64
+    )
+}
+
 fn compile_imm(goenv: &GlobalGoEnv, imm: &anf::ImmExpr) -> goast::Expr {
     match imm {
         anf::ImmExpr::ImmVar { name, ty: _ } => goast::Expr::Var {
@@ -1219,9 +1235,30 @@ fn compile_cexpr(goenv: &GlobalGoEnv, e: &anf::CExpr) -> goast::Expr {
                 ty: vtable_ptr_ty,
             };
 
+            // `data` has the Go type `any`: an untyped numeric constant stored there
+            // would take Go's default type (int / float64) and fail the wrapper's type
+            // assertion, so give a literal operand its goml type explicitly.
+            let data_expr = match expr {
+                anf::ImmExpr::ImmPrim { ty: prim_ty, .. } if is_numeric_literal_ty(prim_ty) => {
+                    let go_ty = tast_ty_to_go_type(prim_ty);
+                    goast::Expr::Call {
+                        func: Box::new(goast::Expr::Var {
+                            name: go_type_name_for(prim_ty),
+                            ty: goty::GoType::TFunc {
+                                params: vec![go_ty.clone()],
+                                ret_ty: Box::new(go_ty.clone()),
+                            },
+                        }),
+                        args: vec![compile_imm(goenv, expr)],
+                        ty: go_ty,
+                    }
+                }
+                _ => compile_imm(goenv, expr),
+            };
+
             goast::Expr::StructLiteral {
                 fields: vec![
-                    ("data".to_string(), compile_imm(goenv, expr)),
+                    ("data".to_string(), data_expr),
                     ("vtable".to_string(), vtable_expr),
                 ],
                 ty: dyn_struct_ty,
